@@ -51,12 +51,21 @@ func createSegment(name string, opt Options) (err error) {
 			}
 		}
 	}()
+	if verif {
+		verifPoint("create.created", name)
+	}
 	size := int64(opt.SegmentSize)
 	if err = f.Truncate(size); err != nil {
 		return
 	}
+	if verif {
+		verifPoint("create.truncated", name)
+	}
 	if _, err = f.WriteAt(make([]byte, 16), size-16); err != nil {
 		return
+	}
+	if verif {
+		verifPoint("create.written", name)
 	}
 	err = f.Sync()
 	return
